@@ -50,8 +50,10 @@ CLAIMED.update({
         "text": "Theorems for ALL byte strings: framing never runs out of fuel (termination); whatever is accepted is a sequence of well-formed records covering the input exactly "
                 "(positive numbers, wire types 0/1/2/5, payloads of exactly the announced/fixed length); every prefix of an accepted input is either a record boundary (decoding to the "
                 "records before it) or rejected with EOFError; field number 0 and wire types 3/4/6/7 are rejected wherever the tag stands; a known number with an unfitting wire type "
-                "only appends its raw bytes to the unknown fields (no value, selection or presence changes); wireFits agrees with the regenerated WIRE_TYPE_BY_PROTO_TYPE table for every type.",
-        "note": TB + "'every returned field has its declared Python type and re-encodes' is checked by the oracle on the implementation for every generated input (theorem ok_welltyped not yet proved).",
+                "only appends its raw bytes to the unknown fields (no value, selection or presence changes); wireFits agrees with the regenerated WIRE_TYPE_BY_PROTO_TYPE table for every type; "
+                "ok_welltyped: for every well-formed schema (decidable WfSchemaT) and EVERY byte string, whatever parse returns holds in every slot, at every nesting level, a value of the field's declared "
+                "Python type (MsgTyped, decidable), and ok_reencodes: it can be encoded again (induction on the decoder's nesting fuel with a typed-state invariant of the fold).",
+        "note": TB + "ok_reencodes carries WfBytes (every list element < 256), an artefact of modelling bytes as List Nat (shown necessary by a decided witness); the link between WfSchemaT and what the plugin can emit is argued, not proved.",
         "technique": "Lean 4 proof (induction over the record list, truncation lemmas for varints/payloads) + differential correspondence on mutated encodings",
         "design_ref": "DESIGN.md §7 C17",
     },
@@ -84,9 +86,11 @@ CLAIMED.update({
         "text": "Theorems: for every schema (optional fields singular) and every instance, the attribute reads an observer performs (lazy default materialisation of every readable slot) change "
                 "neither bytes(m) nor len(m) (materialize_invisible: induction over the slot list, per-kind lemma that a PLACEHOLDER slot and its materialised default encode alike), nor the oneof "
                 "selection, serialized_on_wire, unknown fields or any slot that held a value; copy and deepcopy keep class, serialized_on_wire and unknown fields verbatim and re-derive a selection "
-                "satisfying the oneof invariant; a pickle round trip is parse(bytes(m)). Equality and byte-faithfulness of copies and the independence of deep copies are checked on the implementation.",
-        "note": TB + "PARTIAL: independence of a deep / unpickled copy is aliasing, which a pure functional model cannot exhibit — checked at run time by mutating every mutable path of the copy; "
-                "byte-equality of copies with the original is observed (oracle + lock-step correspondence), not proved.",
+                "satisfying the oneof invariant; a pickle round trip is parse(bytes(m)); for every well-typed value (MsgOk, the decidable domain of C01) copy and deepcopy return a value that is the original "
+                "(copy_is_original: same slots at every level, the constructor re-derives exactly the selection the message has), hence encodes to the same bytes (copy_bytes_faithful) and stays well-typed "
+                "(copy_stays_welltyped); the one premise used beyond typing, 'a selected oneof member is set', is shown sharp by a decided counterexample. Independence of deep copies (aliasing) is checked on the implementation.",
+        "note": TB + "PARTIAL: independence of a deep / unpickled copy is aliasing, which a pure functional model cannot exhibit — checked at run time by mutating every mutable path of the copy "
+                "(assigning other oneof members, growing containers, merging unknown fields into the copy) and comparing the original's bytes and presence.",
         "technique": "Lean 4 proof (invariance of the encoder under default materialisation) + lock-step differential correspondence + run-time aliasing check",
         "design_ref": "DESIGN.md §7 C14",
     },
